@@ -80,6 +80,9 @@ type ModSpec struct {
 	Start   *StartSpec       `json:"start,omitempty"`
 	// Bare: no leaf/accessor functions at all (matrix importers).
 	Bare bool `json:"bare,omitempty"`
+	// HideImportedTables: imported tables are not re-exported (a module that re-exports an imported table is
+	// registered with it a second time; one that does not is only reachable through its import registration).
+	HideImportedTables bool `json:"hide_imported_tables,omitempty"`
 	// Tail: the module also gets the tail-call forms of every cross-instance call path (needs the tail-call feature).
 	Tail bool `json:"tail,omitempty"`
 }
@@ -560,6 +563,9 @@ func Build(spec *ModSpec) ([]byte, *Layout) {
 		m.Exports = append(m.Exports, wenc.Export{Name: "mem", Kind: wenc.ExtMemory})
 	}
 	for i := range l.Tables {
+		if spec.HideImportedTables && i < l.NImpT {
+			continue
+		}
 		m.Exports = append(m.Exports, wenc.Export{Name: fmt.Sprintf("t%d", i), Kind: wenc.ExtTable, Idx: uint32(i)})
 	}
 	for i := range l.Globals {
